@@ -102,7 +102,7 @@ impl<BS: cipher::crypto_common::BlockSizes> BlockSizeUser for DirectDec<'_, BS> 
 }
 
 macro_rules! direct_body {
-    ($self:ident, $backend:ident, $B:ident, $block_inplace:ident, $par_inplace:ident, $par:ident, $tail_inplace:ident, $tail:ident) => {{
+    ($self:ident, $backend:ident, $B:ident, $block:ident, $block_inplace:ident, $par_inplace:ident, $par:ident, $tail_inplace:ident, $tail:ident) => {{
         let w = <$B::ParBlocksSize as Unsigned>::USIZE;
         let variant = $self.variant;
         let mut buf: &mut [Array<u8, Self::BlockSize>] = $self.buf;
@@ -118,6 +118,22 @@ macro_rules! direct_body {
                 $backend.$tail(tail);
             }
             buf.clone_from_slice(&out);
+            return;
+        }
+        if variant == 6 {
+            // one session mixing the two forms of the single-block entry point: block 0 buffer-to-buffer (into a dirty block, copied
+            // back), block 1 in place, block 2 buffer-to-buffer, …
+            for (i, b) in buf.iter_mut().enumerate() {
+                if i % 2 == 0 {
+                    let inp = b.clone();
+                    let mut out = Array::<u8, Self::BlockSize>::default();
+                    out.iter_mut().for_each(|x| *x = 0xa5);
+                    $backend.$block((&inp, &mut out).into());
+                    *b = out;
+                } else {
+                    $backend.$block_inplace(b);
+                }
+            }
             return;
         }
         if variant == 4 {
@@ -176,12 +192,12 @@ macro_rules! direct_body {
 
 impl<BS: cipher::crypto_common::BlockSizes> BlockModeEncClosure for DirectEnc<'_, BS> {
     fn call<B: BlockModeEncBackend<BlockSize = BS>>(self, backend: &mut B) {
-        direct_body!(self, backend, B, encrypt_block_inplace, encrypt_par_blocks_inplace, encrypt_par_blocks, encrypt_tail_blocks_inplace, encrypt_tail_blocks)
+        direct_body!(self, backend, B, encrypt_block, encrypt_block_inplace, encrypt_par_blocks_inplace, encrypt_par_blocks, encrypt_tail_blocks_inplace, encrypt_tail_blocks)
     }
 }
 impl<BS: cipher::crypto_common::BlockSizes> BlockModeDecClosure for DirectDec<'_, BS> {
     fn call<B: BlockModeDecBackend<BlockSize = BS>>(self, backend: &mut B) {
-        direct_body!(self, backend, B, decrypt_block_inplace, decrypt_par_blocks_inplace, decrypt_par_blocks, decrypt_tail_blocks_inplace, decrypt_tail_blocks)
+        direct_body!(self, backend, B, decrypt_block, decrypt_block_inplace, decrypt_par_blocks_inplace, decrypt_par_blocks, decrypt_tail_blocks_inplace, decrypt_tail_blocks)
     }
 }
 
@@ -590,7 +606,7 @@ impl<M: ModeOps> Obj for BlockObj<M> {
             }
             ["backend", v, x] => {
                 let (Ok(v), Some(mut b)) = (v.parse::<u8>(), unhex(x)) else { return bad() };
-                if b.len() % M::MBS != 0 || v > 5 {
+                if b.len() % M::MBS != 0 || v > 6 {
                     return bad();
                 }
                 self.m.backend(v, &mut b);
